@@ -122,17 +122,17 @@ def e2e(ctx):
                 desc = "children %s" % outs
             elif kind == "missing":
                 p = subprocess.run([fw.XARGS, os.path.join(td, "no-such-command")], input=b"a\n", env=xc.ENV,
-                                   stdout=subprocess.DEVNULL, stderr=subprocess.DEVNULL)
-                got, exp, desc = (p.returncode, 0), (127, 0), "command not found"
+                                   stdout=subprocess.DEVNULL, stderr=subprocess.PIPE)
+                got, exp, desc = (p.returncode, 0, bool(p.stderr)), (127, 0, True), "command not found (with a diagnostic)"
             elif kind == "noexec":
                 p = subprocess.run([fw.XARGS, noexec], input=b"a\n", env=xc.ENV,
-                                   stdout=subprocess.DEVNULL, stderr=subprocess.DEVNULL)
-                got, exp, desc = (p.returncode, 0), (126, 0), "command not executable"
+                                   stdout=subprocess.DEVNULL, stderr=subprocess.PIPE)
+                got, exp, desc = (p.returncode, 0, bool(p.stderr)), (126, 0, True), "command not executable (with a diagnostic)"
             else:
                 bad_opt = rng.choice([["-n", "0"], ["-n", "x"], ["-s", "0"], ["-L", "-1"], ["-d", "ab"], ["--nonsense"]])
                 p = subprocess.run([fw.XARGS] + bad_opt + ["true"], input=b"a\n", env=xc.ENV,
-                                   stdout=subprocess.DEVNULL, stderr=subprocess.DEVNULL)
-                got, exp, desc = (p.returncode, 0), (1, 0), "bad option %s" % bad_opt
+                                   stdout=subprocess.DEVNULL, stderr=subprocess.PIPE)
+                got, exp, desc = (p.returncode, 0, bool(p.stderr)), (1, 0, True), "bad option %s (with a diagnostic)" % bad_opt
             ctx.count(("e2e", kind, desc), True, "e2e-" + kind)
             if got != exp:
                 bad.append((desc, got, exp))
